@@ -234,6 +234,7 @@ using namespace c04;
 
 void c04_alias_stage ();
 void c04_consteval_stage ();
+void c04_interop_traits_stage ();
 
 int main (int argc, char** argv)
 {
@@ -286,15 +287,23 @@ int main (int argc, char** argv)
                   : std::vector<int>{K_GENERIC, K_SINGLE, K_PAIR, K_NAN, K_INF, K_NEGZERO, K_DENORM, K_EXTREME, K_WRAP, K_FDIV0},
                th ? "every (class template, element type, operator, spelling) x {3 generic tuples; each slot x B(T)^2; each slot pair x B(T)^4; N<=4: all slots x S(T)^2N}"
                   : "every (class template, element type, operator, spelling) x {3 generic tuples; each slot x B(T)^2; each slot pair x S(T)^4}");
-    run_stage (ST_EQ, std::vector<int>{K_EQ_ULP, K_EQ_SIGNEDZERO, K_EQ_NAN, K_EQ_HETERO, K_APX_AT, K_APX_ABOVE, K_APX_BELOW, K_APX_TWO},
-               "==, != (same and mixed element types), equalWithAbsError/RelError: each slot perturbed alone by 1 ulp / to threshold-1ulp, threshold, threshold+1ulp; each slot x B(T)^2");
-    run_stage (ST_LAYOUT, std::vector<int>{K_LAY_ADDR, K_LAY_RW, K_CONV_NARROW, K_CONV_TRUNC, K_CONV_WIDEN, K_CONV_SPECIAL, K_IOP_NAMED, K_IOP_SUBSCRIPT, K_IOP_CARRAY, K_IOP_DSUB},
+    run_stage (ST_EQ, std::vector<int>{K_EQ_ULP, K_EQ_SIGNEDZERO, K_EQ_NAN, K_EQ_HETERO, K_EQ_HETERO_UNREP, K_APX_AT, K_APX_ABOVE, K_APX_BELOW, K_APX_TWO,
+                                       K_APX_FRACTIONAL, K_APX_NEGTOL, K_APX_NAN, K_APX_INF},
+               "==, != (same and mixed element types, incl. one component not representable in the other element type), equalWithAbsError/RelError: each slot perturbed alone by 1 ulp / "
+               "to threshold-1ulp, threshold, threshold+1ulp on 3 generic tuples (primes, negated primes, dyadic fractions); negative tolerance; NaN / +-inf in one slot of one or both operands; "
+               "each slot x B(T)^2");
+    run_stage (ST_LAYOUT, std::vector<int>{K_LAY_ADDR, K_LAY_RW, K_CONV_NARROW, K_CONV_TRUNC, K_CONV_WIDEN, K_CONV_SPECIAL, K_IOP_NAMED, K_IOP_SUBSCRIPT, K_IOP_CARRAY, K_IOP_DSUB,
+                                           K_IOP_BOTH, K_IOP_SUBREF},
                "sizeof, member/operator[]/getValue address identities, read/write through every accessor, N-ary/copy/broadcast constructors, every ordered pair of element types x "
                "{generic; each slot x every admissible source value}, foreign named-member / subscript / C-array / double-subscript types");
-    run_stage (ST_STREAM, std::vector<int>{K_STR_DEFAULT, K_STR_FIXED, K_STR_PREC3, K_STR_SCI},
-               "operator<< of every (class template, non-character element type) x 5 stream states x 5 generic tuples, tokenised");
+    run_stage (ST_STREAM, std::vector<int>{K_STR_DEFAULT, K_STR_FIXED, K_STR_PREC3, K_STR_SCI, K_STR_SHOWPOS, K_STR_LEFT, K_STR_RIGHT, K_STR_UPPER, K_STR_HEXFLOAT, K_STR_HEXINT,
+                                           K_STR_OCTINT, K_STR_SHOWBASE, K_STR_NEGZERO, K_STR_INF, K_STR_NAN, K_STR_DENORM},
+               "operator<< of every (class template, non-character element type), tokenised: 5 stream states x 5 generic tuples x 4 magnitudes; the flag product {6 floatfield/precision "
+               "states | dec,hex,oct x showbase} x {unset,left,right} x showpos x uppercase (72 states) x 2 generic tuples x 3 magnitudes; every slot x {-0, +-inf, NaN, +-denorm_min} under all "
+               "76 states (fill ' ', no std::internal, no caller setw)");
     c04_alias_stage ();
     c04_consteval_stage ();
+    c04_interop_traits_stage ();
 
     R ().sample ("Vec4<int> a=[2 3 5 7] b=[11 13 17 19]: a/b, a/=b compared slot by slot with int division");
     R ().sample ("Color4<half> a=[2 3 5 NaN] s=-0: a*s, a*=s, s*a compared with half(float(a_i)*float(s))");
